@@ -467,6 +467,7 @@ type forger struct {
 	st     *rangeproof.ProofStructure
 	fake   *big.Int
 	commit *rangeproof.ProofCommit
+	zero   *big.Int // non-nil: the commitments C_i of the range proof are this representative of 0 mod n, and zeros are hashed
 }
 
 func (f *forger) Commit(r map[string]*big.Int) ([]*big.Int, error) {
@@ -484,12 +485,25 @@ func (f *forger) Commit(r map[string]*big.Int) ([]*big.Int, error) {
 		return nil, err
 	}
 	f.commit = commit
+	if f.zero != nil {
+		// every commitment the verifier reconstructs from a range proof with C_i = 0 mod n is 0
+		for range contrib {
+			l = append(l, big.NewInt(0))
+		}
+		return l, nil
+	}
 	return append(l, contrib...), nil
 }
 
 func (f *forger) CreateProof(c *big.Int) gabi.Proof {
 	pd := f.DisclosureProofBuilder.CreateProof(c).(*gabi.ProofD)
-	pd.RangeProofs = map[int][]*rangeproof.Proof{f.idx: {f.st.BuildProof(f.commit, c)}}
+	rp := f.st.BuildProof(f.commit, c)
+	if f.zero != nil {
+		for i := range rp.Cs {
+			rp.Cs[i] = new(big.Int).Set(f.zero)
+		}
+	}
+	pd.RangeProofs = map[int][]*rangeproof.Proof{f.idx: {rp}}
 	return pd
 }
 
@@ -628,7 +642,7 @@ type auxProofs struct {
 
 // source range proofs of one case
 type sources struct {
-	r1, r1b, r2, rf *rangeproof.Proof
+	r1, r1b, r2, rf, rz *rangeproof.Proof
 }
 
 func runAttach(w *world, res *hx.Result, c *acase, raw json.RawMessage, cred1 *gabi.Credential, pd1 *gabi.ProofD, nonce1 *big.Int, disclosed []int, memo map[string]*auxProofs) {
@@ -653,9 +667,14 @@ func runAttach(w *world, res *hx.Result, c *acase, raw json.RawMessage, cred1 *g
 	host1 := pd1 // proof of credential 1 the adversary starts from
 	var host2 *gabi.ProofD
 	// auxiliary honest material is made once per (group, m2, S2) and only ever copied afterwards
-	mk := fmt.Sprint(c.Host == "list", c.Host == "forge", c.Host == "bare2", c.M2, c.S2)
+	forging := c.Host == "forge" || c.Host == "forgez"
+	zat := c.T
+	if c.Host == "forgez" {
+		zat = c.Cs[0].At // the index the zero-commitment range proof is made for
+	}
+	mk := fmt.Sprint(c.Host == "list", c.Host, zat, c.Host == "bare2", c.M2, c.S2)
 	aux, have := memo[mk]
-	if !have && (needs2 || c.Host == "forge") {
+	if !have && (needs2 || forging) {
 		aux = &auxProofs{nonce: nonce1}
 		memo[mk] = aux
 		var err error
@@ -681,14 +700,18 @@ func runAttach(w *world, res *hx.Result, c *acase, raw json.RawMessage, cred1 *g
 				break
 			}
 			aux.h1, aux.h2 = pl[0].(*gabi.ProofD), pl[1].(*gabi.ProofD)
-		case c.Host == "forge":
+		case forging:
 			inner, e1 := cred1.CreateDisclosureProofBuilder(disclosed, nil, false)
-			st, e2 := c.S2.real().ProofStructure(c.T)
+			st, e2 := c.S2.real().ProofStructure(zat)
 			if e1 != nil || e2 != nil {
 				aux.failed = true
 				break
 			}
-			f := &forger{DisclosureProofBuilder: inner, idx: c.T, st: st, fake: big.NewInt(int64(c.M2))}
+			f := &forger{DisclosureProofBuilder: inner, idx: zat, st: st, fake: big.NewInt(int64(c.M2))}
+			if c.Host == "forgez" {
+				// representatives of 0 mod n: 0, n, -n, 2n
+				f.zero = []*big.Int{big.NewInt(0), pk.N, new(big.Int).Neg(pk.N), new(big.Int).Lsh(pk.N, 1)}[(c.M2+zat+c.S2.N)%4]
+			}
 			aux.nonce = w.nonce()
 			var pl gabi.ProofList
 			if pan, msg := hx.Try(func() { pl, err = gabi.ProofBuilderList{f}.BuildProofList(w.context, aux.nonce, false) }); pan {
@@ -727,9 +750,10 @@ func runAttach(w *world, res *hx.Result, c *acase, raw json.RawMessage, cred1 *g
 		case c.Host == "list":
 			host1, host2 = aux.h1, aux.h2
 			src.r1, src.r2 = host1.RangeProofs[c.T][0], host2.RangeProofs[c.T][0]
-		case c.Host == "forge":
+		case forging:
 			host1 = aux.h1
-			src.rf = host1.RangeProofs[c.T][0]
+			src.rf = host1.RangeProofs[zat][0]
+			src.rz = src.rf
 		default:
 			host2 = aux.h2
 			if l := host2.RangeProofs[c.T]; len(l) > 0 {
@@ -750,6 +774,8 @@ func runAttach(w *world, res *hx.Result, c *acase, raw json.RawMessage, cred1 *g
 				s = src.r2
 			case "RF":
 				s = src.rf
+			case "RZ":
+				s = src.rz
 			}
 			if s == nil {
 				hx.Fatal("case needs source %s which does not exist: %s", e.Src, raw)
@@ -769,7 +795,7 @@ func runAttach(w *world, res *hx.Result, c *acase, raw json.RawMessage, cred1 *g
 	}
 	var subs []subject
 	switch c.Host {
-	case "pd1", "forge":
+	case "pd1", "forge", "forgez":
 		subs = []subject{{build(host1, c.Cs), c.Vals1}}
 	case "pd2", "bare2":
 		subs = []subject{{build(host2, c.Cs), c.Vals2}}
